@@ -57,7 +57,10 @@ def _coordinator_patches(world):
             return orig_exc.fget(self)
         patches.append((TC, 'exception', property(exception)))
 
-    def wrap(name, before=None, after=None):
+    def wrap(name, before=None, after=None, at_release=None):
+        """at_release: event emitted when the calling thread releases the
+        coordinator lock inside the call (the linearization point); if no
+        lock is released it is emitted when the call returns."""
         orig = getattr(TC, name, None)
         if orig is None:
             return
@@ -65,9 +68,14 @@ def _coordinator_patches(world):
         def wrapper(self, *a, **kw):
             if before:
                 before(self, *a, **kw)
+            h = None
+            if at_release:
+                h = s.on_next_release(lambda: at_release(self, *a, **kw))
             try:
                 return orig(self, *a, **kw)
             finally:
+                if h is not None:
+                    s.run_release_hooks(only=h)
                 if after:
                     after(self, *a, **kw)
         wrapper.__name__ = name
@@ -77,21 +85,21 @@ def _coordinator_patches(world):
         return getattr(self, '_status', '?')
 
     wrap('set_result',
-         after=lambda self, *a, **k: s.emit('SetResult', x=xid(self), status=st(self)))
+         at_release=lambda self, *a, **k: s.emit('SetResult', x=xid(self), status=st(self)))
     wrap('set_exception',
-         after=lambda self, exc=None, override=False, **k: s.emit(
+         at_release=lambda self, exc=None, override=False, **k: s.emit(
              'SetExc', x=xid(self), exc=W.exc_tag(exc), override=bool(override),
              status=st(self),
              kept=W.exc_tag(getattr(self, '_exception', None))))
     wrap('cancel',
          before=lambda self, msg='', exc_type=None, **k: s.emit(
              'CancelBegin', x=xid(self), msg=str(msg)[:60]),
-         after=lambda self, *a, **k: s.emit(
+         at_release=lambda self, *a, **k: s.emit(
              'CancelEnd', x=xid(self), status=st(self)))
     wrap('set_status_to_queued',
-         after=lambda self: s.emit('Status', x=xid(self), status=st(self)))
+         at_release=lambda self: s.emit('Status', x=xid(self), status=st(self)))
     wrap('set_status_to_running',
-         after=lambda self: s.emit('Status', x=xid(self), status=st(self)))
+         at_release=lambda self: s.emit('Status', x=xid(self), status=st(self)))
     wrap('announce_done',
          before=lambda self: s.emit('AnnounceBegin', x=xid(self), status=st(self)),
          after=lambda self: s.emit('AnnounceEnd', x=xid(self), status=st(self)))
@@ -180,20 +188,24 @@ def _user(w, sc):
             w.futures[x].cancel()
             s.emit('CancelRet', how=how, x=x)
         elif how == 'shutdown':
+            # shutdown() is called by the user after the submissions
+            s.block(lambda: len(w.futures) >= n, 'all-submitted', idle_ok=True)
             msg = cancel.get('msg', 'bye')
             s.emit('CancelCall', how=how, x=-1, msg=msg)
             try:
                 w.manager.shutdown(cancel=True, cancel_msg=msg)
+            except coop.Abort:
+                raise
             except BaseException as e:
                 s.emit('CancelRet', how=how, x=-1, err=type(e).__name__,
                        errmsg=str(e)[:80])
-                raise
+                return
             s.emit('CancelRet', how=how, x=-1)
             (w._snapshot_hook(s), s.emit('ShutdownEnd', by='canceller'))
         elif how in ('kbi-result', 'kbi-shutdown'):
-            s.emit('CancelCall', how=how, x=-1)
+            s.block(lambda: len(w.futures) >= n, 'all-submitted', idle_ok=True)
+            s.emit('InterruptPosted', how=how)
             s.interrupt('user', KeyboardInterrupt())
-            s.emit('CancelRet', how=how, x=-1)
 
     if cancel and cancel['how'] in ('future', 'shutdown', 'kbi-result',
                                     'kbi-shutdown'):
@@ -224,6 +236,8 @@ def _user(w, sc):
                 with w.manager:
                     body()
             finally:
+                if cancel and cancel['how'] in ('exit-exc', 'exit-kbi'):
+                    s.emit('CancelRet', how=cancel['how'], x=-1)
                 (w._snapshot_hook(s), s.emit('ShutdownEnd', by='user'))
         else:
             try:
